@@ -710,10 +710,6 @@ func (d Decimal) Uint32() (uint32, bool) {
 		return math.MaxUint32, false
 	}
 
-	if d.Signbit() {
-		return 0, false
-	}
-
 	sig, exp := d.decompose()
 	exp -= exponentBias
 
@@ -729,6 +725,11 @@ func (d Decimal) Uint32() (uint32, bool) {
 			exp = 0
 			break
 		}
+	}
+
+	if d.Signbit() {
+		// only values that truncate to zero fit an unsigned type
+		return 0, sig[0]|sig[1] == 0
 	}
 
 	for sig[1] == 0 && exp > 0 {
@@ -765,10 +766,6 @@ func (d Decimal) Uint64() (uint64, bool) {
 		return math.MaxUint64, false
 	}
 
-	if d.Signbit() {
-		return 0, false
-	}
-
 	sig, exp := d.decompose()
 	exp -= exponentBias
 
@@ -784,6 +781,11 @@ func (d Decimal) Uint64() (uint64, bool) {
 			exp = 0
 			break
 		}
+	}
+
+	if d.Signbit() {
+		// only values that truncate to zero fit an unsigned type
+		return 0, sig[0]|sig[1] == 0
 	}
 
 	for sig[1] == 0 && exp > 0 {
